@@ -99,6 +99,52 @@ def _rows(name, methods, reach):
     return [(callee, ln, ins or covered(callee, {name})) for callee, ln, ins in _calls(methods[name], reach)]
 
 
+def _sections(name, methods):
+    """[in_loop, ...] one entry per `with self._channel_lock()` statement the operation executes, its own and those of the
+    private helpers it calls (recursively); in_loop = the statement (or the call leading to it) sits under for/while"""
+    out = []
+
+    def visit(node, in_loop, seen):
+        if isinstance(node, (ast.For, ast.AsyncFor, ast.While)):
+            for ch in ast.iter_child_nodes(node):
+                visit(ch, True, seen)
+            return
+        if isinstance(node, (ast.With, ast.AsyncWith)) and any(_is_lock_ctx(it) for it in node.items):
+            out.append(in_loop)
+        c = _self_call(node)
+        if c is not None and len(c) == 1 and c[0] in methods and c[0] not in PRIMITIVES and c[0] not in seen and c[0] != "_channel_lock":
+            for stmt in methods[c[0]].body:
+                visit(stmt, in_loop, seen | {c[0]})
+        for ch in ast.iter_child_nodes(node):
+            visit(ch, in_loop, seen)
+
+    for stmt in methods[name].body:
+        visit(stmt, False, {name})
+    return out
+
+
+def _assert_transport_uses(cls, rel):
+    """the reachability analysis only understands `self.transport.x(...)` and `self.m(...)`: anything else that could reach
+    the transport must stop the translation instead of silently producing no row"""
+    parents = {}
+    for n in ast.walk(cls):
+        for ch in ast.iter_child_nodes(n):
+            parents[id(ch)] = n
+    for n in ast.walk(cls):
+        if _is_self_attr(n, "transport") and isinstance(n.ctx, ast.Load):
+            p = parents.get(id(n))
+            ok = isinstance(p, ast.Attribute) and (p.attr == "_base_transport_args" or (
+                isinstance(parents.get(id(p)), ast.Call) and parents[id(p)].func is p))
+            if not ok:
+                raise TranslateError(f"{rel}:{n.lineno}: `self.transport` used other than as `self.transport.<call>(...)`: cannot follow it")
+        if isinstance(n, ast.Call) and isinstance(n.func, ast.Attribute) and n.func.attr in PRIMITIVES:
+            v = n.func.value
+            if isinstance(v, ast.Call) and isinstance(v.func, ast.Name) and v.func.id == "super":
+                raise TranslateError(f"{rel}:{n.lineno}: super().{n.func.attr}(...) is not followed by the analysis")
+            if isinstance(v, ast.Name) and v.id in ("BaseChannel", "Channel", "AsyncChannel"):
+                raise TranslateError(f"{rel}:{n.lineno}: {v.id}.{n.func.attr}(self, ...) is not followed by the analysis")
+
+
 def _is_self_attr(e, attr):
     return isinstance(e, ast.Attribute) and e.attr == attr and isinstance(e.value, ast.Name) and e.value.id == "self"
 
@@ -222,15 +268,45 @@ def pool_timeout_order():
     return inside, bool(closes) and min(closes) < max(raises)
 
 
+def close_guard():
+    """under which condition does `_handle_timeout` call transport.close()?  -> "always" | "not <test>" | "<test>" (source text)"""
+    tree = _parse(DECO)
+    ht = _func(tree, "_handle_timeout", DECO)
+
+    def is_close(n):
+        return (isinstance(n, ast.Call) and isinstance(n.func, ast.Attribute) and n.func.attr == "close"
+                and isinstance(n.func.value, ast.Name) and n.func.value.id == "transport")
+
+    def find(stmts, guard):
+        for st in stmts:
+            if isinstance(st, ast.If):
+                t = ast.unparse(st.test)
+                r = find(st.body, guard + [t]) or find(st.orelse, guard + ["not " + t])
+                if r is not None:
+                    return r
+            elif isinstance(st, (ast.For, ast.While, ast.Try, ast.With)):
+                raise TranslateError(f"{DECO}: _handle_timeout: unexpected control structure {type(st).__name__}")
+            elif any(is_close(n) for n in ast.walk(st)):
+                return " and ".join(guard) if guard else "always"
+        return None
+
+    g = find(ht.body, [])
+    if g is None:
+        raise TranslateError(f"{DECO}: _handle_timeout never closes the transport")
+    return g
+
+
 def analyse():
     """-> dict(rows=[(file, method, call, line, inside)], operations=[(file, method)], lock_ctx=[(file, ok)],
                lock_types=[(file, ctor, guarded)], default=bool, unlocked_public=[(file, method)])"""
     base_tree = _parse(BASE[0])
     base_methods = _methods(_class(base_tree, BASE[1], BASE[0]))
-    rows, ops, ctx, types = [], [], [], []
+    rows, ops, ctx, types, secs = [], [], [], [], []
+    _assert_transport_uses(_class(base_tree, BASE[1], BASE[0]), BASE[0])
     for rel, cname in FILES:
         tree = _parse(rel)
         cls = _class(tree, cname, rel)
+        _assert_transport_uses(cls, rel)
         own = _methods(cls)
         allm = dict(base_methods)
         allm.update(own)
@@ -243,6 +319,8 @@ def analyse():
                 continue
             r = _rows(name, allm, reach)
             ops.append((rel, name))
+            sec = _sections(name, allm)
+            secs.append((rel, name, len(sec), any(sec)))
             for callee, line, inside in r:
                 rows.append((rel, name, callee, line, inside))
         lk = own.get("_channel_lock")
@@ -254,7 +332,8 @@ def analyse():
     if not rows:
         raise TranslateError("no transport-reaching call found in any channel operation")
     inside, closes = pool_timeout_order()
-    return dict(rows=rows, operations=ops, lock_ctx=ctx, lock_types=types, default=_default_flag(), pool_inside=inside, pool_closes=closes)
+    return dict(rows=rows, operations=ops, lock_ctx=ctx, lock_types=types, default=_default_flag(), pool_inside=inside, pool_closes=closes,
+                close_guard=close_guard(), sections=secs)
 
 
 def _s(x):
@@ -279,6 +358,10 @@ def generate():
     body += "/-- public methods of the channel classes (own and inherited) from which the transport is reachable,\n    other than the primitives -/\n"
     body += "def operations : List (String × String) := [\n"
     body += ",\n".join(f"  ({_s(f)}, {_s(m)})" for f, m in a["operations"]) + "]\n\n"
+    body += ("/-- per operation: how many `with self._channel_lock()` statements it executes (own and through private helpers)\n"
+             "    and whether any of them sits under a for/while: one operation must be ONE critical section -/\n")
+    body += "def lockSections : List (String × String × Nat × Bool) := [\n"
+    body += ",\n".join(f"  ({_s(f)}, {_s(m)}, {n}, {_b(l)})" for f, m, n, l in a["sections"]) + "]\n\n"
     body += "/-- the primitives (the transport calls themselves; they run while the operation holds the lock) -/\n"
     body += "def primitives : List String := [" + ", ".join(_s(p) for p in PRIMITIVES) + "]\n\n"
     body += ("/-- `_channel_lock` is a (async)contextmanager that takes `self.channel_lock` by a (async) with-statement around\n"
@@ -292,6 +375,8 @@ def generate():
              f"def handleTimeoutInsidePoolBlock : Bool := {_b(a['pool_inside'])}\n\n"
              "/-- `_handle_timeout` calls `transport.close()` before it raises ScrapliTimeout -/\n"
              f"def handleTimeoutClosesBeforeRaise : Bool := {_b(a['pool_closes'])}\n\n")
+    body += ("/-- the condition under which `_handle_timeout` calls transport.close() (source text of the guarding tests) -/\n"
+             f"def handleTimeoutCloseGuard : String := {_s(a['close_guard'])}\n\n")
     body += "end Scrapli.Gen.LockCoverage\n"
     return [("ScrapliModel/Gen/LockCoverage.lean", body)]
 
